@@ -70,7 +70,7 @@ Example C12_nontrivial :
   let cfg := [mkSrv 0 1 1; mkSrv 0 2 2; mkSrv 0 3 3] in
   let P := mkP 1 false false false 0 4 (fun _ => cfg) in
   let m := log_store ∅ [mkE 1 1 5 9000; mkE 2 2 0 202] in
-  let s := mkNS 3 0 None m 0 0 [] 0 3 0 0 2 2 0 0 cfg 1 [] 0 0 0 false [] in
+  let s := mkNS 3 0 None m 0 0 [] 0 3 0 0 2 2 0 0 cfg 1 [] 0 0 0 false [] (0, 0) in
   match install_snapshot P s [] (mkIReq 3 3 3 2 3 cfg 1 [302] false) with
   | Done s' (_, ok, _) _ _ =>
     ok = true /\
